@@ -29,6 +29,7 @@ Definition subok (c : citem) : Prop :=
 Definition mok (s : st) (m : mop) : Prop :=
   match m with
   | MRunItem c | MDropItem c => subok c
+  | MDropInner c => callk c
   | MRetInvoke r _ => forall a, nshape a r -> zombie s a
   | _ => True
   end.
@@ -357,7 +358,10 @@ Proof.
       * apply FIN; [|apply zmono_same; reflexivity | constructor].
         destruct K as [A MQ KK]. constructor; auto. unfold submit, push_main; simpl. apply Forall_app. split; auto.
         constructor; [apply subok_as_call | constructor].
-      * apply FIN; [eapply KS_same; eauto | apply zmono_same; reflexivity | repeat constructor].
+      * apply FIN; [eapply KS_same; eauto | apply zmono_same; reflexivity|].
+        constructor; [exact I|]. constructor; [|constructor]. simpl.
+        unfold mwf, nsf in MW. simpl in MW. pose proof (Forall_inv MW) as TG. simpl in TG. destruct TG as [TK _].
+        unfold callk. destruct (ci_kind ci); auto.
     + destruct inner as [[p ci]|]; inversion E; subst.
       * apply FIN; [|apply zmono_same; reflexivity | constructor].
         destruct K as [A MQ KK]. constructor; auto. unfold submit, push_main; simpl. apply Forall_app. split; auto.
